@@ -572,9 +572,13 @@ func (e *Executor) Exec(line string, lb *types.LightBlock) string {
 			e.RecPan++
 			return "panic"
 		}
-		e.TakePosts()
-		if e.LT.MsgListLen() > m0 {
+		posts := e.TakePosts()
+		_ = m0
+		switch {
+		case len(posts) > 0:
 			return "posted"
+		case f[1] == "1":
+			return "duplicate" // p2p.Manager suppressed a hash it has already forwarded
 		}
 		return "undecodable"
 	case "blk":
@@ -829,7 +833,7 @@ func (e *Executor) execStream(f []string, line string) string {
 			return "dropped"
 		}
 		return "sent 1"
-	case "dlreply": // dlreply rd hasMsg items firstIsBlock blockNil height
+	case "dlreply": // dlreply rd hasMsg items firstIsBlock blockNil height requested
 		resp := &types.MessageGetBlocksResp{}
 		if f[2] == "1" {
 			resp.Message = &types.InvDatas{}
@@ -851,7 +855,7 @@ func (e *Executor) execStream(f []string, line string) string {
 		})
 		var blk *types.Block
 		var err error
-		if pi := Guard(func() { blk, err = e.dl.VerifFetch(5, e.IDs[8]) }); pi != nil {
+		if pi := Guard(func() { blk, err = e.dl.VerifFetch(atoi64(f[7]), e.IDs[8]) }); pi != nil {
 			e.Unrecovered("downloadBlock", pi, line)
 			return "panic"
 		}
